@@ -1,60 +1,70 @@
 (* Property theorems for C02 -- statements only; proofs are `exact` of lemmas.
-   Model: C02/Model.v.  The model carries one flag per known defect site (Gen/C02Cfg.v says how
-   the checked tree sets them), so the same statements hold for the pinned and for a repaired tree. *)
+   Model: C02/Model.v (hand-written from raw.c, gzip.c, bzip.c, ascii.c, getdata.c, iopos.c, flush.c),
+   one flag per repair site; Gen/C02Cfg.v (regenerated from the C source on every run) says how the
+   checked tree sets them.  The full statements below are for trees with the six read-path repairs
+   (`repaired`), which `checked_tree_is_repaired` shows the checked tree to be. *)
 From Coq Require Import ZArith List Bool.
-From GD Require Import C02.Model C02.Slices C02.CodecProofs C02.HistoryProofs C02.Refutations Gen.C02Cfg.
+From GD Require Import C02.Model C02.Slices C02.CodecProofs C02.BzRead C02.HistoryProofs C02.Windows
+                       C02.Handle C02.Current C02.Refutations Gen.C02Cfg.
 Import ListNotations.
 Local Open Scope Z_scope.
 
-(* ---- the full statement and its status on the pinned tree *)
-Definition history_independent_statement := Refutations.history_independent_statement.
+Theorem checked_tree_is_repaired : repaired tree_cfg.
+Proof. exact tree_repaired. Qed.
 
-(* refuted for the pinned tree (cfg0 = every repair flag false), libbz2 with a 4-byte window *)
-Theorem history_independent_refuted : ~ history_independent_statement dec4 cfg0.
-Proof. exact statement_refuted. Qed.
+(* ---- the property, full strength: for EVERY history of public calls (reads absolute or GD_HERE of
+   any window, seeks SET/CUR/END, tells, raw_close/flush of a field or of everything, LRU auto-closes
+   in any order, calls that fail with GD_E_RANGE/GD_E_DOMAIN/bad field) on a handle over ANY
+   well-formed field table of RAW (raw/gzip, bzip2, text), PHASE, LINCOM, BIT, MULTIPLY fields, every
+   libbz2-conforming decoder and buffer size: an absolute read of any window of any field returns
+   exactly the window of the whole-field contents. *)
+Theorem history_independent :
+  forall BUF dec, (forall S, dec_ok BUF dec S) ->
+  forall d, wf_db d -> mult_ok d ->
+  forall (h : list call) f fd k n,
+    nth_error (d_fields d) f = Some fd -> 0 <= k <= 2 ^ 61 -> 0 <= n <= 2 ^ 61 ->
+    snd (step dec d (run dec d (init d) h) (CGet f (Some k) n)) = RData (spec_window d f k n).
+Proof. exact history_independent_c. Qed.
 
-(* one witness per defect region; the second component shows the repaired model is right there *)
-Theorem refuted_bzip2_seek_before_window :
-  ask (mkdb cfg0 EBz 0 []) [CGet 0 (Some 9) 2] 0 1 2 = RUB /\
-  ask (mkdb cfg_all EBz 0 []) [CGet 0 (Some 9) 2] 0 1 2 = RData [1; 2].
-Proof. exact bz_backward_witness. Qed.
+(* "identical whether k is fetched alone or inside any larger or differently split window" *)
+Theorem alone_or_inside_any_window :
+  forall d f s n j, (j < length (spec_window d f s n))%nat ->
+    spec_window d f (s + Z.of_nat j) 1 = [nth j (spec_window d f s n) 0].
+Proof. exact alone_equals_in_window. Qed.
 
-Theorem refuted_bzip2_read_reaching_eof :
-  ask (mkdb cfg0 EBz 0 []) [CGet 0 (Some 8) 1; CGet 0 (Some 9) 9] 0 9 2 = RData [] /\
-  spec_window (mkdb cfg0 EBz 0 []) 0 9 2 = [9; 10] /\
-  ask (mkdb cfg_all EBz 0 []) [CGet 0 (Some 8) 1; CGet 0 (Some 9) 9] 0 9 2 = RData [9; 10].
-Proof. exact bz_eof_witness. Qed.
+(* the handle invariant (recurse_level = 0 between calls, every open cursor coherent with its
+   stream) holds initially and after every call, successful or failed *)
+Theorem invariant_initial : forall d, InvH d (init d).
+Proof. exact init_inv. Qed.
+Theorem invariant_preserved_by_every_call :
+  forall BUF dec, (forall S, dec_ok BUF dec S) -> forall d, wf_db d ->
+  forall s c, InvH d s -> InvH d (fst (step dec d s c)).
+Proof. exact step_inv. Qed.
+Theorem invariant_after_any_history :
+  forall BUF dec, (forall S, dec_ok BUF dec S) -> forall d, wf_db d ->
+  forall h s, InvH d s -> InvH d (run dec d s h).
+Proof. exact run_inv. Qed.
 
-Theorem refuted_phase_minus_one_is_here :
-  ask (mkdb cfg0 ERaw 0 [FPhase 0 (-1)]) [CGet 0 (Some 5) 2] 1 0 3 = RData [7; 8; 9] /\
-  ask (mkdb cfg0 ERaw 0 [FPhase 0 (-1)]) [] 1 0 3 = RData [0; 1; 2] /\
-  spec_window (mkdb cfg0 ERaw 0 [FPhase 0 (-1)]) 1 0 3 = [0; 0; 1] /\
-  ask (mkdb cfg_all ERaw 0 [FPhase 0 (-1)]) [CGet 0 (Some 5) 2] 1 0 3 = RData [0; 0; 1].
-Proof. exact phase_here_witness. Qed.
+(* ---- the codec cursors, every history, every size *)
+Theorem bzip2_read_window :
+  forall BUF dec c rd st p n,
+    wf_rd rd -> rd_enc rd = EBz -> dec_ok BUF dec (rd_bytes rd) -> fix_bz_eof c = true ->
+    At rd st p -> 0 <= n ->
+    exists st' bs cnt, bz_read dec c (rd_bytes rd) (rd_size rd) st n = Some (st', bs, cnt) /\
+      cnt = read_count rd p n /\ cnt * rd_size rd <= len bs /\
+      firstn (Z.to_nat (cnt * rd_size rd)) bs = slice (rd_bytes rd) (p * rd_size rd) (cnt * rd_size rd) /\
+      At rd st' (p + cnt).
+Proof. exact bz_read_spec. Qed.
 
-Theorem refuted_text_pseudo_position :
-  ask (mkdb cfg0 ETxt 3 []) [CGet 0 (Some 8) 1; CGet 0 (Some 0) 1] 0 7 1 = RData [] /\
-  spec_window (mkdb cfg0 ETxt 3 []) 0 7 1 = [4] /\
-  ask (mkdb cfg_all ETxt 3 []) [CGet 0 (Some 8) 1; CGet 0 (Some 0) 1] 0 7 1 = RData [4].
-Proof. exact text_pseudo_witness. Qed.
+Theorem bzip2_seek_window :
+  forall BUF dec c rd st count,
+    wf_rd rd -> rd_enc rd = EBz -> dec_ok BUF dec (rd_bytes rd) -> Coh c rd st -> 0 <= count ->
+    (fix_bz_rewind c = true \/ b_base st <= count * rd_size rd \/ r_fpos st = count) ->
+    exists st' p', bz_seek dec c (rd_bytes rd) (rd_size rd) st count = Some (st', p') /\
+      At rd st' p' /\ p' = Z.min count (nsamp rd).
+Proof. exact bz_seek_spec. Qed.
 
-Theorem refuted_recurse_level_leak :
-  ask (mkdb cfg0 ERaw 0 []) (repeat (CSeek 0 (-5) WSet) 31) 0 0 2 = RErr E_RECURSE /\
-  ask (mkdb cfg_all ERaw 0 []) (repeat (CSeek 0 (-5) WSet) 31) 0 0 2 = RData [0; 1].
-Proof. exact leak_witness. Qed.
-
-Theorem refuted_all_padding_read :
-  ask (mkdb cfg0 ERaw 0 [FPhase 0 (-3)]) [] 1 0 2 = RErr E_RANGE /\
-  ask (mkdb cfg0 ERaw 0 [FPhase 0 (-3)]) [] 1 0 5 = RData [0; 0; 0; 0; 1] /\
-  ask (mkdb cfg_all ERaw 0 [FPhase 0 (-3)]) [] 1 0 2 = RData [0; 0].
-Proof. exact negseek_witness. Qed.
-
-(* ---- what holds (partial): cursor level, every history, no size bound *)
-
-(* raw/gzip and text cursors: after ANY history of seek;read pairs on an open file whose cursor is
-   coherent (Coh: positioned, or carrying a pseudo position -- for text only when repaired), the
-   samples delivered for (count, n) are the ones the whole decoded stream dictates *)
-Theorem cursor_history_independent_partial :
+Theorem cursor_history_independent_raw_text :
   forall dec c rd h st count n,
     wf_rd rd -> plain_enc rd -> Coh c rd st -> hist_nonneg h -> 0 <= count -> 0 <= n ->
     exists st1 st2 bs cnt,
@@ -63,46 +73,43 @@ Theorem cursor_history_independent_partial :
       cnt = pure_count rd count n /\ firstn (Z.to_nat (cnt * rd_size rd)) bs = pure_bytes rd count n.
 Proof. exact cursor_history_independent. Qed.
 
-(* the invariant is kept by every such history, and holds right after opening *)
-Theorem cursor_invariant :
-  forall dec c rd, wf_rd rd -> plain_enc rd ->
-    forall h st, Coh c rd st -> hist_nonneg h -> exists st', cursor_run dec c rd st h = Some st' /\ Coh c rd st'.
-Proof. exact cursor_run_coh. Qed.
+(* ---- hypotheses are satisfiable: libbz2 as observed, and a concrete database on the checked tree *)
+Theorem libbz2_model_conforms : forall BUF eager, 0 < BUF -> forall S, dec_ok BUF (dec_bz2 BUF eager) S.
+Proof. exact dec_bz2_ok. Qed.
+Example hypotheses_satisfiable : wf_db db_ex /\ mult_ok db_ex /\ d_cfg db_ex = tree_cfg.
+Proof. exact (conj db_ex_wf (conj db_ex_mult eq_refl)). Qed.
 
-Theorem opened_is_coherent : forall c rd, wf_rd rd -> Coh c rd st_opened.
-Proof. exact opened_coh. Qed.
-
-(* bzip2 window, for every decoder satisfying the libbz2 contract dec_ok and every buffer size:
-   a seek establishes the position min(count, nsamp) and a coherent window -- EXCEPT when the
-   target lies before the current window and the tree does not restart the stream (the excluded
-   region is exactly `b_base st > count * size`) *)
-Theorem bzip2_seek_partial :
-  forall BUF dec c rd st count,
-    wf_rd rd -> rd_enc rd = EBz -> dec_ok BUF dec (rd_bytes rd) -> Coh c rd st -> 0 <= count ->
-    (fix_bz_rewind c = true \/ b_base st <= count * rd_size rd \/ r_fpos st = count) ->
-    exists st' p', bz_seek dec c (rd_bytes rd) (rd_size rd) st count = Some (st', p') /\
-      At rd st' p' /\ p' = Z.min count (nsamp rd).
-Proof. exact bz_seek_spec. Qed.
-
-(* handle level: the invariant (recurse_level = 0, every open cursor coherent) holds initially and
-   is preserved by closing any set of RAW files in any order -- gd_raw_close/gd_flush of everything
-   and every choice the LRU auto-close of gd_open_limit can make *)
-Theorem inv_initial : forall d, Inv d (init d).
-Proof. exact inv_init. Qed.
-Theorem inv_auto_close_any : forall dec d s r, Inv d s -> Inv d (fst (step dec d s (CAuto r))).
-Proof. exact inv_auto_close. Qed.
-Theorem inv_close_everything : forall dec d s, Inv d s -> Inv d (fst (step dec d s (CClose None))).
-Proof. exact inv_close_all. Qed.
-
-(* the hypotheses above are satisfiable *)
-Example hypotheses_satisfiable :
-  wf_rd {| rd_enc := ERaw; rd_size := 2; rd_sgn := false; rd_bytes := bytes12; rd_foff := 0 |} /\
-  plain_enc {| rd_enc := ERaw; rd_size := 2; rd_sgn := false; rd_bytes := bytes12; rd_foff := 0 |} /\
-  hist_nonneg [(3, 2); (0, 9)] /\ dec_ok 4 (dec_bz2 4 true) bytes12.
-Proof. exact hyps_ok. Qed.
-
-(* the tree being checked (flags regenerated from the C source by translate/tr_c02cfg.py) *)
-Theorem tree_flags_known : tree_cfg = cfg0 \/ exists b, b = true /\
-  (fix_bz_rewind tree_cfg = b \/ fix_bz_eof tree_cfg = b \/ fix_here tree_cfg = b \/
-   fix_text_pseudo tree_cfg = b \/ fix_leak tree_cfg = b \/ fix_negseek tree_cfg = b).
-Proof. exact tree_flags. Qed.
+(* ---- history: the statement was false for the tree before commits e69eeed..e34b6b0
+   (cfg0 = every repair flag off); one computed witness per defect, each also right after the repair *)
+Definition history_independent_statement := Refutations.history_independent_statement.
+Theorem history_independent_refuted_before_repairs : ~ history_independent_statement dec4 cfg0.
+Proof. exact statement_refuted. Qed.
+Theorem refuted_bzip2_seek_before_window :
+  ask (mkdb cfg0 EBz 0 []) [CGet 0 (Some 9) 2] 0 1 2 = RUB /\
+  ask (mkdb cfg_all EBz 0 []) [CGet 0 (Some 9) 2] 0 1 2 = RData [1; 2].
+Proof. exact bz_backward_witness. Qed.
+Theorem refuted_bzip2_read_reaching_eof :
+  ask (mkdb cfg0 EBz 0 []) [CGet 0 (Some 8) 1; CGet 0 (Some 9) 9] 0 9 2 = RData [] /\
+  spec_window (mkdb cfg0 EBz 0 []) 0 9 2 = [9; 10] /\
+  ask (mkdb cfg_all EBz 0 []) [CGet 0 (Some 8) 1; CGet 0 (Some 9) 9] 0 9 2 = RData [9; 10].
+Proof. exact bz_eof_witness. Qed.
+Theorem refuted_phase_minus_one_is_here :
+  ask (mkdb cfg0 ERaw 0 [FPhase 0 (-1)]) [CGet 0 (Some 5) 2] 1 0 3 = RData [7; 8; 9] /\
+  ask (mkdb cfg0 ERaw 0 [FPhase 0 (-1)]) [] 1 0 3 = RData [0; 1; 2] /\
+  spec_window (mkdb cfg0 ERaw 0 [FPhase 0 (-1)]) 1 0 3 = [0; 0; 1] /\
+  ask (mkdb cfg_all ERaw 0 [FPhase 0 (-1)]) [CGet 0 (Some 5) 2] 1 0 3 = RData [0; 0; 1].
+Proof. exact phase_here_witness. Qed.
+Theorem refuted_text_pseudo_position :
+  ask (mkdb cfg0 ETxt 3 []) [CGet 0 (Some 8) 1; CGet 0 (Some 0) 1] 0 7 1 = RData [] /\
+  spec_window (mkdb cfg0 ETxt 3 []) 0 7 1 = [4] /\
+  ask (mkdb cfg_all ETxt 3 []) [CGet 0 (Some 8) 1; CGet 0 (Some 0) 1] 0 7 1 = RData [4].
+Proof. exact text_pseudo_witness. Qed.
+Theorem refuted_recurse_level_leak :
+  ask (mkdb cfg0 ERaw 0 []) (repeat (CSeek 0 (-5) WSet) 31) 0 0 2 = RErr E_RECURSE /\
+  ask (mkdb cfg_all ERaw 0 []) (repeat (CSeek 0 (-5) WSet) 31) 0 0 2 = RData [0; 1].
+Proof. exact leak_witness. Qed.
+Theorem refuted_all_padding_read :
+  ask (mkdb cfg0 ERaw 0 [FPhase 0 (-3)]) [] 1 0 2 = RErr E_RANGE /\
+  ask (mkdb cfg0 ERaw 0 [FPhase 0 (-3)]) [] 1 0 5 = RData [0; 0; 0; 0; 1] /\
+  ask (mkdb cfg_all ERaw 0 [FPhase 0 (-3)]) [] 1 0 2 = RData [0; 0].
+Proof. exact negseek_witness. Qed.
